@@ -515,7 +515,10 @@ class ShortReader:
 
     def read(self, n=-1):
         if n is None or n < 0:
-            n = len(self.data) - self.pos
+            # read() / readall(): everything that is left
+            out = self.data[self.pos :]
+            self.pos = len(self.data)
+            return out
         if self.i < len(self.sched):
             n = min(n, max(1, self.sched[self.i]))
         self.i += 1
